@@ -100,6 +100,11 @@ func (ip *Interp) RunPath(fn *ssa.Function, params []int64, work Work, wantWitne
 					res.Outcome = "violation"
 				}
 			case *goPanic:
+				if r.inHarness {
+					// the harness itself panicked (not the code under test): a harness defect, never a finding
+					res.Outcome, res.Msg = "inconclusive", "harness panic: "+r.msg+" at "+r.stack
+					break
+				}
 				ip.recordViolation("panic", r.msg, r.stack, nil)
 				res.Outcome, res.Msg = "violation", r.msg
 			case unsupportedErr:
